@@ -32,7 +32,7 @@ func init() {
 			}
 			return 4
 		},
-		Cases:       func(r *obs.Run) int { return r.Share(r.Pick(2400, 40000)) },
+		Cases:       func(r *obs.Run) int { return r.Share(r.Pick(8000, 40000)) },
 		Case:        c04Case,
 		MinDistinct: func(t string) int { return 4000 },
 		Floors: func(string) map[string]int64 {
